@@ -92,6 +92,62 @@ theorem stateToGraph_complete (t : STab) (hn : 0 < t.n) (hg : t.Good) (hi : Inde
     ∃ adj gates, stateToGraph t = .ok (adj, gates) :=
   stateToGraphWith_complete gf2InvF t hn (gf2InvF_ok t.n) hg hi
 
+/-- **shape of the returned gate list**: Hadamards on distinct qubits, then `P_dag` on distinct qubits, then `Z` on distinct qubits —
+    single-qubit gates only -/
+theorem stateToGraphWith_gates (inv : Nat → Adj → Option Adj) (t : STab) (adj : BMat) (gates : List Gate)
+    (e : stateToGraphWith inv t = .ok (adj, gates)) :
+    ∃ hpos zdiag zl : List Nat, gates = hpos.map Gate.H ++ zdiag.map Gate.Pdag ++ zl.map Gate.Z ∧
+      hpos.Nodup ∧ zdiag.Nodup ∧ zl.Nodup := by
+  unfold stateToGraphWith at e
+  split at e
+  · cases e
+  · next g hg =>
+    simp only at e
+    split at e
+    · cases e
+    · next zs hz =>
+      injection e with e
+      injection e with _ e2
+      have spec := graphFinderWith_spec inv _ g hg
+      obtain ⟨_, tab2, newTab, xinv, _, _, _, _, ezs⟩ := phaseCorrection_unfold _ _ _ _ hz
+      refine ⟨g.hpos, g.zdiag, (List.range newTab.n).filter fun i =>
+        parityTo newTab.n fun k => xinv.f i k && xor (tab2.row k).r (newTab.row k).r, ?_, spec.hpos_nodup, spec.zdiag_nodup,
+        List.Nodup.filter _ List.nodup_range⟩
+      rw [← e2, ezs]; rfl
+
+/-- **undoing the gates**: if a gate list maps `t` onto the group of `G`, the reversed list (`P ↔ P_dag`, `run_circuit(reverse=True)`)
+    maps `G` back onto the group of `t` -/
+theorem runCircuit_rev_spanEq (t G : STab) (gates : List Gate) (hwf : ∀ g, g ∈ gates → g.WF t.n) (hg : t.Good) (hG : G.Good)
+    (s : SpanEq (t.runCircuit gates) G) : SpanEq (G.runCircuit (revCirc gates)) t := by
+  have hrev := revCirc_wf t.n gates hwf
+  have n1 : (t.runCircuit gates).n = t.n := runCircuit_n _ _
+  have tr := tracks_runCircuit t hg gates hwf
+  have hrev1 : ∀ g, g ∈ revCirc gates → g.WF (t.runCircuit gates).n := fun g h => n1 ▸ hrev g h
+  have s1 : SpanEq ((t.runCircuit gates).runCircuit (revCirc gates)) (G.runCircuit (revCirc gates)) :=
+    runCircuit_spanEq _ _ _ hrev1 s tr.good hG
+  have hall : ∀ g, g ∈ gates ++ revCirc gates → g.WF t.n := by
+    intro g h
+    rcases List.mem_append.mp h with h | h
+    · exact hwf g h
+    · exact hrev g h
+  have nn : (t.runCircuit (gates ++ revCirc gates)).n = t.n := runCircuit_n _ _
+  have rows : ∀ i, i < t.n → EqOn t.n ((t.runCircuit (gates ++ revCirc gates)).row i) (t.row i) := by
+    intro i hi
+    have := runCircuit_row t (gates ++ revCirc gates) hall i hi
+    rw [actCirc_app] at this
+    exact this.trans (revCirc_cancel t.n gates hwf _)
+  have s2 : SpanEq (t.runCircuit (gates ++ revCirc gates)) t := by
+    apply spanEq_of_gens _ _ nn.symm
+    · intro i hi
+      have := spn_gen (t.runCircuit (gates ++ revCirc gates)) i (nn ▸ hi)
+      refine InSpan.eqv _ _ this ?_
+      rw [nn]; exact rows i hi
+    · intro i hi
+      rw [nn] at hi
+      exact InSpan.eqv _ _ (spn_gen t i hi) (rows i hi).symm
+  rw [runCircuit_append] at s2
+  exact s1.symm.trans s2
+
 /-- boolean check of `Good` (for concrete examples) -/
 theorem S2G.good_of_check (t : STab)
     (h : ((List.range t.n).all fun i => (t.row i).ip == false &&
